@@ -173,3 +173,13 @@ pub fn grow<T: Default>(v: &mut Vec<T>, idx: usize) {
         v.push(T::default());
     }
 }
+
+/// Peek depth: mostly small, sometimes far beyond the number of tokens ahead / beyond any
+/// plausible internal buffer size.
+pub fn gen_peek_n(rng: &mut Rng) -> usize {
+    if rng.chance(1, 12) {
+        rng.range(6, 40)
+    } else {
+        rng.below(6)
+    }
+}
